@@ -300,6 +300,30 @@ PATH_VALIDATION_ONLY = {"exists", "file_okay", "dir_okay", "readable", "writable
 PATH_REWRITING = {"resolve_path", "path_type"}
 
 
+def _distribution_options(ck: Checker, prog: Program):
+    """The distributions under which the written mean curve / fn statistics are computed are the ones asked for on the command
+    line: the worker hands options['distribution_mc'] / options['distribution_fn'] to the writer's parameters of the same name."""
+    w = prog.func(WORKER)
+    p_opt = w.params[3]
+    calls = [c for c in calls_in(w.node) if _resolve_call(prog, w.module, c) == "object_io.write_hvsr_object_to_file"]
+    if len(calls) != 1:
+        raise AnalysisError(f"{WORKER}: expected exactly one call of the writer")
+    bound = bind_call(calls[0], prog.func("object_io.write_hvsr_object_to_file").params)
+    n = 0
+    for kwname in ("distribution_mc", "distribution_fn"):
+        v = bound.get(kwname)
+        if v is None:
+            continue
+        n += 1
+        good = isinstance(v, ast.Subscript) and isinstance(v.value, ast.Name) and v.value.id == p_opt and isinstance(v.slice, ast.Constant) and v.slice.value == kwname
+        if good:
+            ck.ok("C19.R2a", WORKER, f"{kwname} taken from options['{kwname}']", nontrivial=False)
+        else:
+            ck.violation("C19.R2a", WORKER, f"writer option {kwname}", f"write(... {kwname}={unparse(v)}) does not pass options['{kwname}']: the statistics in the file are computed "
+                         f"under another distribution than the one requested", loc=w.loc(calls[0]))
+    ck.floor("C19.R2a", n, 2, "distribution options handed to the writer")
+
+
 def _whole(e: ast.AST, ints) -> bool:
     """The expression is an int whatever the data: literals, len / int / os.cpu_count, names known to be whole, and + - * // max min of such."""
     if isinstance(e, ast.Constant):
